@@ -196,6 +196,13 @@ pub fn menu() -> Vec<Kind> {
         kind("wild-big-y-truncated", "y.big.t.", t::TXT, Plain, u, Q, 0, "*.big.t."),
         kind("wild-big-x-edns", "x.big.t.", t::TXT, Edns, u, Q, 0, "*.big.t."),
         kind("wild-big-z-A-nodata", "z.big.t.", t::A, Plain, u, Q, 0, "*.big.t."),
+        // the same through the QTYPE * path, which writes its answers in
+        // a loop of its own
+        kind("wild-big-x-ANY-truncated", "x.big.t.", t::ANY, Plain, u, Q, 0, "*.big.t."),
+        kind("wild-big-y-ANY-truncated", "y.big.t.", t::ANY, Plain, u, Q, 0, "*.big.t."),
+        kind("wild-big-y-ANY-edns", "y.big.t.", t::ANY, Edns, u, Q, 0, "*.big.t."),
+        kind("wild-x-ANY", "x.w.t.", t::ANY, Plain, u, Q, 0, "*.w.t."),
+        kind("big2-ANY-truncated", "big2.t.", t::ANY, Plain, u, Q, 0, "big2.t."),
         kind("big2-truncated", "big2.t.", t::TXT, Plain, u, Q, 0, "big2.t."),
         kind("big2-edns", "BIG2.t.", t::TXT, Edns, u, Q, 0, "big2.t."),
         // ---- NXDOMAIN
